@@ -290,6 +290,8 @@ Alts(v) ==
                         THEN {<<"NEW_REFERENCE_EXT", <<114>> \o U16(Len(v.words)) \o Enc(v.node) \o <<v.creation[4]>> \o Concat(v.words)>>}
                              \cup (IF Len(v.words) = 1 THEN {<<"REFERENCE_EXT", <<101>> \o Enc(v.node) \o v.words[1] \o <<v.creation[4]>>>>} ELSE {})
                         ELSE {}
+    \* (the arity of an export is a term of its own on the wire: a writer may use the 32-bit integer tag for it)
+    [] v.k = "export" -> {<<"EXPORT_EXT arity as INTEGER_EXT", <<113>> \o Enc(v.m) \o Enc(v.f) \o <<98, 0, 0, 0, v.a>>>>}
     [] OTHER -> {}
 \* LOCAL_EXT may wrap any term; for non-identifiers the wrapper carries no value
 LocalWrapAlts(v) == IF v.k \in {"pid", "port", "ref"} THEN {} ELSE {<<"LOCAL_EXT wrapping a non-identifier", <<121, 1, 2, 3, 4, 5, 6, 7, 8>> \o Enc(v)>>}
